@@ -233,4 +233,19 @@ CHECKS = {
         note="Language c and c++, PY_array_arg=list; numpy variants are not executed. Five recorded known findings are "
              "excluded by construction from the main search and probed on every run.",
     ),
+    "C18": dict(
+        level="exploration",
+        technique="property-based differential testing against a reference model, executed on a reference Lua C-API "
+                  "emulator: Hypothesis library models, generated argument stacks (matching and non-matching)",
+        design_ref="DESIGN.md section 4, C18",
+        text="Generated libraries in the Lua-supported subset are wrapped and the binding is compiled against the "
+             "emulator in vf/luaemu; a generated driver builds every matching argument stack (plain functions, overload "
+             "sets, default-argument arities, overloaded constructors, methods with arguments, __gc) and non-matching "
+             "stacks for every dispatching function; the library's receive log, the reported result count and the pushed "
+             "values must equal the reference model, and a non-matching stack must raise a Lua error without reaching the "
+             "library.",
+        note="No Lua runtime exists in the sandbox: semantics are those of the emulator (Lua 5.3 signatures). char *, "
+             "class-pointer arguments/results of free functions and static methods are outside the supported subset. Two "
+             "recorded known findings are excluded by construction and probed.",
+    ),
 }
